@@ -135,6 +135,8 @@ inline const std::vector<Emb>& emb_table() {
     {5, 1000, 0, 0, 1},
     {6, 1LL << 30, 0, 0, 1},                       // huge features: coordinate DIFFERENCES beyond 2^31 (products beyond 2^63)
     {7, 1LL << 54, -(1LL << 59), (1LL << 58), 1},   // differences up to 2^60
+    {8, 1LL << 26, 0, 0, 1},                       // extent just around 2^31 .. 2^32: the int32 boundary of coordinate differences
+    {9, 1LL << 27, -(1LL << 31), (1LL << 31) + 5, 1},
   };
   return t;
 }
